@@ -290,6 +290,13 @@ func (p *prover) intFacts(k string, v ssa.Value) {
 			}
 			p.ge(ls.add(lin{c: map[string]int64{}, k: nl}, -1), self, "F1 index <= len(s) - len(needle)")
 		}
+		// slices.Index / IndexFunc / BinarySearch-free finders of the standard library: -1 <= r <= len(s) - 1
+		if strings.HasPrefix(name, "slices.Index") && len(x.Call.Args) >= 1 {
+			p.addFact(self.add(one, 1), "F1 slices.Index* >= -1")
+			ls := newLin()
+			ls.c[p.lenKey(x.Call.Args[0])] = 1
+			p.ge(ls.add(one, -1), self, "F1 slices.Index* <= len(s) - 1")
+		}
 		// a finder of the package over one of its string arguments: -1, or an index it has compared with that
 		// argument's length (F1 for package functions)
 		if callee := x.Common().StaticCallee(); callee != nil && w.isMain(callee) {
